@@ -44,6 +44,22 @@ Proof.
 Qed.
 Print Assumptions C10_reset_then_data.
 
+(* Closing the connection (packet buffer: what was received stays readable) neither disarms nor re-arms the deadline: the
+   statements above hold for closed connections as they stand ([closed] is not among their hypotheses), and Close itself leaves the
+   deadline in force and the queued data as they are. *)
+Theorem C10_close_keeps_deadline : forall s t, blocked s = false ->
+  let s1 := r_event s t RClose in
+  dl s1 = dl s /\ items s1 = items s /\ results s1 = results s /\ closed s1 = true.
+Proof.
+  intros s t Hb. unfold r_event, expire_before. rewrite Hb. cbn [andb]. rewrite Hb. cbn. auto.
+Qed.
+Print Assumptions C10_close_keeps_deadline.
+
+Example C10_close_example :
+  rdl_run [[10; 1; 50]; [20; 3; 7]; [60; 4]; [65; 6]; [70; 4]; [75; 1; 0]; [80; 4]; [90; 4]; [1000; 0]]
+  = [[60; 1; 0]; [70; 1; 0]; [80; 0; 7]; [90; 2; 0]].
+Proof. vm_compute. reflexivity. Qed.
+
 (* non-vacuity: expire while nobody reads, two reads after expiry (both time out although data is
    queued), extend, read the data, block, get released at the new deadline *)
 Example C10_example :
